@@ -57,12 +57,22 @@ def nthVariant : Variants → Nat → Option (String × Fields)
   | .cons tag fs _, 0 => some (tag, fs)
   | .cons _ _ rest, k + 1 => nthVariant rest k
 
+/-- the content of an `Option` body: `None` is the body `{ Extant }` (and `{}`), so `Some(x)` must never be written
+as an empty or `{ Extant }` body: no unit, no nested `Option`, no collection -/
+def optBodyOK (names : List String) : Ty → Bool
+  | .int _ | .bool | .text => true
+  | .struct tag _ => !names.contains tag
+  | .enum vs => (variantTags vs).all fun t => !names.contains t
+  | _ => false
+
 /-- delegated body position, `names` = the attribute fields of the container: the first attribute the body
 contributes (the tag of a struct, of any variant of an enum) must not be one of them -/
 def bodySafe (names : List String) : Ty → Bool
   | .int _ | .bool | .text | .unit | .list _ => true
   | .struct tag _ => !names.contains tag
   | .enum vs => (variantTags vs).all fun t => !names.contains t
+  -- `None` is the body `{ Extant }`; `Some(x)` must not be written as an empty or `{ Extant }` body
+  | .opt t => optBodyOK names t
   | _ => false
 
 /-- types a `#[form(skip)]` field may have in the model (their `Default` is known) -/
@@ -102,8 +112,7 @@ def structWF (fs : List FieldC) : Bool :=
   -- `assess_kind`: the body fields are all labelled (slots, with distinct names) or all unlabelled (tuple items)
   && (((segSlots fs).all (·.labelled) && distinct ((segSlots fs).map (·.name))) || (segSlots fs).all (fun f => !f.labelled))
 
-/-- Candidate side condition for `#[form(newtype)]` (statement `C16_newtype_from_to_open`): a single field that is
-not skipped; skipped fields have a known default. -/
+/-- `#[form(newtype)]`: the fields after the wrapped one are all skipped, with a known default. -/
 def allSkip : Fields → Bool
   | .nil => true
   | .cons _ _ kind t rest => kind == .skip && hasDflt t && allSkip rest
@@ -114,12 +123,16 @@ def tyWF : Ty → Bool
   | .opt t => tyWF t && !acceptsExtant t
   | .list t => tyWF t
   | .struct _ fs => fieldsWF (attrNames fs) fs && structWF (fieldCs fs 0)
-  | .newtype _ => false
+  -- `FieldsModel::newtype_field`: exactly one field that is not skipped
+  | .newtype fs => ntWF fs
   -- `EnumModel::validate`: "Duplicate enumeration tag"
   | .enum vs => variantsWF vs && distinct (variantTags vs)
 def fieldsWF (names : List String) : Fields → Bool
   | .nil => true
   | .cons _ _ kind t rest => tyWF t && posSafe names kind t && fieldsWF names rest
+def ntWF : Fields → Bool
+  | .nil => false
+  | .cons _ _ kind t rest => if kind == .skip then hasDflt t && ntWF rest else tyWF t && allSkip rest
 def variantsWF : Variants → Bool
   | .nil => true
   | .cons _ fs rest => fieldsWF (attrNames fs) fs && structWF (fieldCs fs 0) && variantsWF rest
